@@ -305,6 +305,10 @@ REUSE_SCENARIOS = [
     ("catastrophic-regexp-then-reuse", "var cre = /(a+)+b/; var csub = 'aaaaaaaaaaaaaaaaaaaaaaaaaaaaaaaaaaaaaaaaac';", "cre.test(csub)", "",
      "[cre.test('aab'), cre.exec('xaab')[1], 'aab'.replace(cre, '-'), /a+/.exec('caab')[0]]", [True, "aa", "-", "aa"]),
     ("deep-recursion-then-array-string", "function drec(n) { return drec(n + 1) + 1; } var dra = [[1, 2], [3]];", "drec(0)", "", "[String(dra), dra.join('|'), [dra, dra] + '']", ["1,2,3", "1,2|3", "1,2,3,1,2,3"]),
+    # earlier allocations (in evaluations that succeeded or failed) are not charged to later ones: each evaluation is judged against the limit alone
+    ("allocations-in-earlier-evals", "var keep = new Uint8Array(10);", "new ArrayBuffer(60000); new Float64Array(8000); Array(7000); new Int32Array(15000); throw new Error('after allocating')", "",
+     "[new ArrayBuffer(150000).byteLength, new Float64Array(20000).length, Array(20000).length, new Uint8Array(20000).length, keep.length]", [150000, 20000, 20000, 20000, 10]),
+    ("allocation-refused-then-smaller", "", "new ArrayBuffer(100000000)", "", "[new ArrayBuffer(150000).byteLength, new ArrayBuffer(150000).byteLength, Array(20000).length]", [150000, 150000, 20000]),
     ("stringify-then-memory-limit", "var big = []; for (var bi = 0; bi < 50; bi++) { big.push({i: bi}); }", "JSON.stringify(big); (function r() { return r(); })()", "", "[JSON.stringify(big).length > 100, JSON.stringify([big[0], big[0]])]"),
 ]
 
